@@ -105,6 +105,16 @@ CLAIMS = {
          "compared as sets of projective points with each point once, in both argument orders, with mixed-sign homogeneous "
          "representatives of the vertices, and through SegmentCollection.",
     design="5/C18", technique="TLC enumeration with an exact intersection-set oracle + replay"),
+ "C10": dict(
+    text="C10_Constructions.tla gives exact homogeneous results for perpendicular/parallel/project/mirror of every lattice line of "
+         "the plane and plane of space against every lattice point (also points on the subspace), of lines of 3-space through "
+         "lattice points, exact truth values of is_parallel/is_perpendicular/is_cocircular/is_collinear/is_concurrent/is_coplanar "
+         "(incl. repeated points and more than dim+1 arguments), rational angle bisectors; TLC certifies the defining relations "
+         "(foot on s with p-foot normal, mirror an involution with midpoint the foot, parallel through p, bisectors perpendicular "
+         "with equal angles); results whose choice the property leaves open (base_point, basis_matrix, general_point, perpendicular "
+         "through a point on a 3D line, irrational bisectors) are checked through the stated relation; singles and collections "
+         "with mixed on/off masks.",
+    design="5/C10", technique="TLC lattice enumeration with exact constructions + replay (exact classes or stated relations)"),
 }
 
 checks = []
